@@ -263,7 +263,7 @@ class Daemon:
         t0 = time.time()
         while True:
             try:
-                client = IPCClient(self.sock_name, 30)
+                client = IPCClient(self.sock_name, 240)
                 break
             except BlockingIOError as e:
                 # EAGAIN: the listen(1) backlog is full because the daemon has not yet accepted the
@@ -342,6 +342,18 @@ def classify(kind: str, resp: Any, plan: dict[str, Any], expected_check: dict[in
 
 def run_history(d: Daemon, hist: list[dict[str, Any]], expected_check: dict[int, Any],
                 offsets: dict[int, int] | None = None) -> tuple[str | None, list[Any]]:
+    """Replay one model behaviour on a live daemon. A reply that TIMES OUT (240 s) is only believed when it
+    reproduces on a freshly started daemon: on an overloaded machine a slow answer is not a hang."""
+    prob, seen = _run_history(d, hist, expected_check, offsets)
+    if prob and "timed out" in prob:
+        d.stop_hard()
+        d.start()
+        prob, seen = _run_history(d, hist, expected_check, offsets)
+    return prob, seen
+
+
+def _run_history(d: Daemon, hist: list[dict[str, Any]], expected_check: dict[int, Any],
+                 offsets: dict[int, int] | None = None) -> tuple[str | None, list[Any]]:
     """Replay one model behaviour on a live daemon. Returns (problem or None, observations)."""
     if not d.alive() or not os.path.exists(d.status_file):
         d.start()
